@@ -1,0 +1,52 @@
+//go:build verif
+
+// Contracts (machine-checked by /verif/govc) for package grpcutil.
+// This file contains comments only; it is compiled only with the build tag "verif" and adds no code.
+
+package grpcutil
+
+// ---------------------------------------------------------------------------------------------
+// C11: the set of endpoints the client connection may dial equals the set of registered mux sessions.
+// ---------------------------------------------------------------------------------------------
+
+//@ extern quiet (*manual.Resolver).UpdateState
+
+// One endpoint per map key, each with exactly that key as its single address; indices stay in bounds.
+//@ contract (*MultiClientConn).deriveStateFromConns
+//@   props C11
+//@   ensures @count: len(result.Endpoints) == len(mcc.connMap)
+//@   ensures @covers: forall k string :: { k in mcc.connMap } k in mcc.connMap ==> exists i int :: 0 <= i && i < len(result.Endpoints) &&
+//@              len(result.Endpoints[i].Addresses) == 1 && result.Endpoints[i].Addresses[0].Addr == k
+//@   ensures @only: forall i int :: { result.Endpoints[i] } 0 <= i && i < len(result.Endpoints) ==>
+//@              len(result.Endpoints[i].Addresses) == 1 && result.Endpoints[i].Addresses[0].Addr in mcc.connMap
+//@   assigns nothing
+//@   loop 1 invariant idx == $n && len(newState.Endpoints) == len(mcc.connMap) && fresh(newState.Endpoints)
+//@   loop 1 invariant forall k string :: { k in $seen } k in $seen ==> exists i int :: 0 <= i && i < idx &&
+//@              len(newState.Endpoints[i].Addresses) == 1 && newState.Endpoints[i].Addresses[0].Addr == k
+//@   loop 1 invariant forall i int :: { newState.Endpoints[i] } 0 <= i && i < idx ==> allocated(newState.Endpoints[i].Addresses) &&
+//@              len(newState.Endpoints[i].Addresses) == 1 && newState.Endpoints[i].Addresses[0].Addr in mcc.connMap
+
+// Map and resolver state are replaced together, inside one critical section.
+//@ contract (*MultiClientConn).UpdateState
+//@   props C11
+//@   ensures @map_set: mcc.connMap == conns
+//@   callpre deriveStateFromConns: @same_section: held(mcc.connMapLock) && mcc.connMap == conns
+//@   callpre UpdateState: @same_section: held(mcc.connMapLock) && mcc.connMap == conns
+
+// A session-list update installs a FRESH map with exactly the session ids as keys, each opening streams on that
+// session; the empty list installs nil.
+//@ contract (*MultiClientConn).OnConnectionListUpdate
+//@   props C11
+//@   callpre UpdateState: @empty: len(muxes) == 0 ==> $conns == nil
+//@   callpre UpdateState: @keys: len(muxes) > 0 ==> $conns != nil && fresh($conns) &&
+//@        (forall k string :: { k in $conns } (k in $conns) <==> (k in muxes)) &&
+//@        (forall k string :: { $conns[k] } k in muxes ==> $conns[k] == muxes[k].Open)
+//@   loop 1 invariant connMap != nil && fresh(connMap)
+//@   loop 1 invariant forall k string :: { k in connMap } (k in connMap) <==> (k in $seen)
+//@   loop 1 invariant forall k string :: { connMap[k] } k in $seen ==> connMap[k] == muxes[k].Open
+
+// The dialer consults the same map: an address that is not registered is refused.
+//@ contract (*MultiClientConn).getMapDialer$1
+//@   props C11
+//@   requires mcc != nil
+//@   ensures @unknown_refused: old(!(addr in mcc.connMap)) ==> result0 == nil && result1 != nil
